@@ -130,7 +130,9 @@ Proof.
     [ (* early return *)
       solve [ destruct offsets as [|o l]; cbn [List.length] in *;
               first [ reflexivity | exfalso; lia | unfold default_cleaner; cbn [default_loop]; repeat f_equal; lia ] ]
-    | rewrite exec_list_cons, exec_range;
+    | (* what the prefix did after its tests is computed now (the first computation stopped at the tests) *)
+      cbn -[Z.eqb Z.ltb Z.leb Z.gtb Z.geb Z.add Z.sub Z.mul Z.min Z.max Z.of_nat exec_list];
+      rewrite exec_list_cons, exec_range;
       match goal with |- context [eval [] ?e dc_xs] =>
         let r := eval cbn in (eval [] e dc_xs) in change (eval [] e dc_xs) with r end;
       cbv beta iota; unfold default_cleaner;
